@@ -65,6 +65,19 @@ func makeContent(kind string, n int, seed int64) []byte {
 		}
 		return b
 	}
+	if strings.HasPrefix(kind, "holes:") {
+		// a sparse-looking file: runs of k bytes alternate between data and zeros (header, hole, payload, zero padding);
+		// with n not a multiple of k the last run is a short all-zero one
+		var k int
+		fmt.Sscanf(kind, "holes:%d", &k)
+		r := rand.New(rand.NewSource(seed))
+		for i := 0; i < n; i += k {
+			if (i/k)%2 == 0 {
+				r.Read(b[i:min(i+k, n)])
+			}
+		}
+		return b
+	}
 	switch kind {
 	case "distinct":
 		for i := range b {
@@ -211,6 +224,8 @@ func rewriteOwn(st *Store, c cid.Cid, mode string, isRoot bool) (format.Node, er
 	if mode == "mtime" && isRoot {
 		sec := int64(-86400)
 		d.Mtime = &pb.IPFSTimestamp{Seconds: &sec}
+		md := uint32(0o600)
+		d.Mode = &md // ... and a mode (UnixFS 1.5 metadata on the root)
 	}
 	db, err := proto.Marshal(d)
 	if err != nil {
